@@ -35,6 +35,8 @@ type Prog struct {
 	Files []string // non-test .go files parsed (relative)
 	Funcs []*ssa.Function
 	we    *WE
+	// Renames: unexported identifiers resolved by shape (ALPHA, rename.go)
+	Renames []Renaming
 }
 
 // Load type-checks the module in dir and builds SSA for its packages.
@@ -54,7 +56,35 @@ func Load(dir string, env []string, tags string) (*Prog, error) {
 	if err != nil {
 		return nil, fmt.Errorf("load: %v", err)
 	}
-	p := &Prog{Dir: dir, Pkgs: map[string]*packages.Package{}, SPkgs: map[string]*ssa.Package{}}
+	// ALPHA: unexported identifiers that were renamed are analysed under
+	// their inventory names, through an overlay (files on disk untouched)
+	var renames []Renaming
+	if clean := func() bool {
+		for _, pk := range pkgs {
+			if len(pk.Errors) > 0 || pk.IllTyped {
+				return false
+			}
+		}
+		return true
+	}(); clean && os.Getenv("CORSCHECK_NO_ALPHA") == "" {
+		if mapping, log := detectRenamings(pkgs); len(mapping) > 0 {
+			overlay, oerr := renameOverlay(pkgs, mapping)
+			if oerr == nil {
+				cfg.Overlay = overlay
+				pkgs2, err2 := packages.Load(cfg, "./...")
+				ok2 := err2 == nil
+				for _, pk := range pkgs2 {
+					if len(pk.Errors) > 0 || pk.IllTyped {
+						ok2 = false
+					}
+				}
+				if ok2 {
+					pkgs, renames = pkgs2, log
+				}
+			}
+		}
+	}
+	p := &Prog{Dir: dir, Pkgs: map[string]*packages.Package{}, SPkgs: map[string]*ssa.Package{}, Renames: renames}
 	var errs []string
 	for _, pk := range pkgs {
 		for _, e := range pk.Errors {
